@@ -409,6 +409,8 @@ def run_jobs(jobs, workers=16, wall_slack=60):
         opts = dict(timeout=job.get("timeout", 60.0), per_path_timeout=job.get("per_path_timeout", 20.0))
         if job.get("stop_on_first_fail"):
             opts["stop_on_first_fail"] = True
+        if job.get("max_fail_samples"):
+            opts["max_fail_samples"] = job["max_fail_samples"]
         env = dict(os.environ)
         env["VERIF_REPO"] = REPO
         env["PYTHONPATH"] = VERIF
